@@ -241,7 +241,11 @@ func (g *bridgeGen) depositItem(d *depInfo, flaw string) (*bitcointypes.Deposit,
 		f["pos"], f["spvOk"] = p2, p2 < 1<<uint(depth) && merkleSrc(depth, len(blk.txids), p2) == d.pos
 	case "posAlias": // same low bits, extra high bits
 		depth := len(blk.tree.Levels) - 1
-		p2 := d.pos + (1+g.r.Intn(3))<<uint(depth)
+		k := 1
+		if g.r.Intn(2) == 0 {
+			k = 2 + g.r.Intn(2)
+		}
+		p2 := d.pos + k<<uint(depth)
 		dep.TxIndex = uint32(p2)
 		f["pos"], f["spvOk"] = p2, false
 	case "proof":
@@ -578,6 +582,9 @@ func (g *bridgeGen) plan(mode string) (*BlockPlan, error) {
 				continue
 			}
 			n := 1 + r.Intn(3)
+			if rare(8) {
+				n = 0 // an empty batch
+			}
 			if mode == "deep" {
 				n = 16
 			}
@@ -647,7 +654,9 @@ func (g *bridgeGen) plan(mode string) (*BlockPlan, error) {
 			for j := 1 + r.Intn(3); j > 0; j-- {
 				d := cand[r.Intn(len(cand))]
 				flaw := "none"
-				if mode == "addr" && rare(3) {
+				if d == g.cbDep && rare(3) { // a coinbase transaction presented under an aliased (non-zero) position
+					flaw = "posAlias"
+				} else if mode == "addr" && rare(3) {
 					flaw = []string{"otherEvm", "otherKey", "version", "otherOut"}[r.Intn(4)]
 				} else if rare(4) {
 					flaw = []string{"otherEvm", "otherKey", "version", "version2", "outIdx", "otherOut", "pos", "posAlias", "proof", "proofTrunc", "header", "noHeader", "evmLen", "txTrunc"}[r.Intn(14)]
